@@ -16,6 +16,7 @@ func init() {
 		Explanation: "Decides only the protocol part of the statement ('chunks from a different stream or out of sequence are rejected, an aborted stream leaves no partial data behind'); the byte-for-byte round trip over all inputs and chunk sizes (gzip framing, read-loop arithmetic) is a statement about values and is not decided. " +
 			"C28.a DECIDE: Dechunker.WriteChunk under all valuations of (first chunk, stream id differs, sequence number is not seqNum+1, no data, gzip ok, copy ok): a foreign or out-of-sequence chunk is rejected before any state change other than adopting the stream id of the first chunk, an accepted chunk advances seqNum exactly once before its data is written, and the result is chunk.IsLast only on full success. " +
 			"C28.b TABLE: every LoadChunkRequest built by the Chunker carries Chunker.streamID, and sequence numbers are sequenceNum+1 (the counter is advanced once per data chunk). " +
+			"C28.d OWN: no function of package command/chunking returns (directly or inside the chunk it returns) a slice that aliases an object it puts back into a sync.Pool. " +
 			"C28.c PAIR: in CommandProcessor.Process the abort branch and the last-chunk branch, after the dechunker was closed, drop it from the manager and defer the removal of its file before any return.",
 		NotCovered: []string{"byte equality of the reassembled stream (gzip framing, read loop at exact multiples of the chunk size)", "partial files of streams that fail midway without an abort"},
 		Run:        runC28,
@@ -167,6 +168,13 @@ func runC28(c *core.Ctx) {
 	}
 	c.Count("chunk requests built by the chunker", nReq)
 	c.Min("chunk requests built by the chunker", 3)
+
+	// C28.d chunks do not share memory with the chunker's pools
+	if sp := c.P.SPkg("command/chunking"); sp != nil {
+		n := checkPoolOwnership(c, "C28.d", pkgFuncs(sp), "a caller that fetches the next chunk before it is done with the previous one finds the previous chunk's data destroyed, and the reassembled stream differs from the original")
+		c.Count("chunking functions that return pooled objects to a pool", n)
+		c.Min("chunking functions that return pooled objects to a pool", 1)
+	}
 
 	// C28.c no partial data after abort / completion
 	if fn := c.Fn("C28.c", "store", "(*CommandProcessor).Process"); fn != nil {
